@@ -3,5 +3,5 @@ From Coq Require Import Extraction ExtrOcamlBasic.
 From XV Require Import C08.Spec08 C08.Model08.
 Extraction Language OCaml.
 Extraction "../ocaml/C08/gen_c08.ml"
-  pmatch wildcard_allows constraint_of attrs_valid defaulted
+  pmatch wildcard_allows constraint_of attrs_valid defaulted m_attrs_valid m_defaulted
   model_valid content_tree use_repeating any_match all_validate.
